@@ -3,7 +3,7 @@
 //
 // An index lookup may never return (a spinning goroutine cannot be stopped), so every block-database
 // operation runs in a CHILD PROCESS (this binary re-executed with `-worker`, line protocol over pipes).
-// The parent watches the child's consumed CPU time: an operation that has burnt hangCPU of CPU without
+// The parent watches the child's consumed user CPU time: an operation that has burnt hangCPU of it without
 // answering (or hangWall of wall time) is a hang; the child is killed, the answer token is `hang`, and
 // the case continues in a fresh child that first re-executes the prefix (without the hanging reads,
 // which change nothing).
@@ -30,8 +30,10 @@ import (
 )
 
 const (
-	hangCPU  = 150 * time.Millisecond
-	hangWall = 30 * time.Second
+	// a lookup that spins burns USER time at full rate; a slow but finite call on a loaded machine (page
+	// faults, I/O stalls) does not, so only utime counts and the wall-clock fallback is very generous
+	hangCPU  = 400 * time.Millisecond
+	hangWall = 300 * time.Second
 )
 
 // ---------------------------------------------------------------------------------------------- tokens
@@ -379,7 +381,7 @@ func (w *worker) kill() {
 	go w.cmd.Wait()
 }
 
-// cpuTime of the child (utime+stime) from /proc/<pid>/stat.
+// cpuTime of the child (utime only) from /proc/<pid>/stat.
 func cpuTime(pid int) time.Duration {
 	b, err := os.ReadFile(fmt.Sprintf("/proc/%d/stat", pid))
 	if err != nil {
@@ -392,8 +394,7 @@ func cpuTime(pid int) time.Duration {
 		return 0
 	}
 	ut, _ := strconv.ParseInt(f[11], 10, 64)
-	stt, _ := strconv.ParseInt(f[12], 10, 64)
-	return time.Duration(ut+stt) * (time.Second / 100) // USER_HZ = 100
+	return time.Duration(ut) * (time.Second / 100) // USER_HZ = 100
 }
 
 // call sends one line; hung=true when the watchdog fired (the worker is dead afterwards).
@@ -431,8 +432,37 @@ func (w *worker) call(line string) (ans string, hung bool) {
 
 func isStoreOp(op string) bool { return strings.HasPrefix(op, "b") }
 
+func onlyStoreOps(ops []string) bool {
+	for _, op := range ops {
+		if !isStoreOp(op) {
+			return false
+		}
+	}
+	return true
+}
+
+// at most this many child processes at a time (each start of this binary costs about one CPU-second)
+var workerSem = make(chan struct{}, 8)
+
 func impl(ops []string) []string {
 	outs := make([]string, len(ops))
+	if onlyStoreOps(ops) {
+		var bs *storeCase
+		dir, err := os.MkdirTemp("", "c26-")
+		if err != nil {
+			panic(err)
+		}
+		defer os.RemoveAll(dir)
+		for i, op := range ops {
+			if bs == nil || strings.HasPrefix(op, "bnew") {
+				bs = newStoreCase(filepath.Join(dir, fmt.Sprintf("bs%d", i)))
+			}
+			outs[i] = bs.do(strings.Fields(op))
+		}
+		return outs
+	}
+	workerSem <- struct{}{}
+	defer func() { <-workerSem }()
 	dir, err := os.MkdirTemp("", "c26-")
 	if err != nil {
 		panic(err)
@@ -630,7 +660,7 @@ func gen(r *rand.Rand, thorough bool, i int) []string {
 		absentBudget := 0
 		if useMap {
 			absentBudget = 3
-		} else if r.Intn(5) == 0 {
+		} else if r.Intn(10) == 0 {
 			absentBudget = 1 + r.Intn(2)
 		}
 		for q := 0; q < reads; q++ {
@@ -864,7 +894,7 @@ func main() {
 			if th {
 				return 20000
 			}
-			return 480
+			return 400
 		},
 		Fixed: fixedCases(),
 		Nontrivial: func(ops, outs []string) bool {
@@ -878,7 +908,7 @@ func main() {
 			}
 			pool = nil
 			return map[string]interface{}{"child_processes": nSpawn, "hangs_observed": nHangs,
-				"watchdog": fmt.Sprintf("child killed after %v of CPU without an answer (or %v wall)", hangCPU, hangWall),
+				"watchdog": fmt.Sprintf("child killed after %v of user CPU time on one call without an answer (or %v wall)", hangCPU, hangWall),
 				"store": storeExtra()}
 		},
 	})
